@@ -368,9 +368,12 @@ func (c *Ctx) ensureOrdinals(body ast.Node) {
 			n++
 			c.loopOrd[m] = n
 		case *ast.CallExpr:
-			if se, ok := y.Fun.(*ast.SelectorExpr); ok && se.Sel.Name == "ForEach" {
-				fe++
-				c.feOrd[m] = fe
+			for _, a := range y.Args {
+				if _, ok := unparen(a).(*ast.FuncLit); ok {
+					fe++
+					c.feOrd[m] = fe
+					break
+				}
 			}
 		}
 		return true
